@@ -196,6 +196,30 @@ func C02(c *core.Ctx) {
 	p := c.P
 	c02DeadNonceKeys(c)
 	// ---- R2.10 (shared with C08 R8.3) a nonce recorded as dead stays dead for its lifetime
+	// ---- R2.14 "a nonce recorded as dead … is not forwarded": a nonce is dead for a lifetime
+	// from the LAST time it was recorded. Every path through DeadNonceList.Insert writes the
+	// expiration queue — a new record is pushed, an existing one renewed (Update). An Insert
+	// that does nothing for a record that exists lets it expire with the lifetime of the
+	// first recording: half a lifetime after the Data came back the looping copy is
+	// forwarded again.
+	if ins := c.Fn("R2.14", "fw/table", "DeadNonceList", "Insert"); ins != nil && len(ins.Blocks) > 0 {
+		isQueueWrite := func(in ssa.Instruction) bool {
+			ci, ok := in.(ssa.CallInstruction)
+			if !ok {
+				return false
+			}
+			g := ci.Common().StaticCallee()
+			if g == nil {
+				return false
+			}
+			if g.Origin() != nil {
+				g = g.Origin()
+			}
+			return g.Pkg != nil && strings.HasSuffix(g.Pkg.Pkg.Path(), "priority_queue") && (g.Name() == "Push" || g.Name() == "Update")
+		}
+		fr := core.MustFollowDeep(ins, core.Point{Block: ins.Blocks[0], Idx: 0}, isQueueWrite, nil)
+		c.Decide(fr.OK, "R2.14", "recording-again-renews-the-record", c.P.Pos(ins.Pos()), "every path through Insert pushes or renews the record's expiration", "DeadNonceList.Insert leaves the expiration of a record that already exists as it was: a nonce recorded as dead a second time (a retransmission, then the returning Data) is forgotten a lifetime after the FIRST recording, and a looping copy arriving after that is forwarded again")
+	}
 	c.Import(C08, "R2.10", "a dead-nonce record can disappear before its lifetime is over: a looping Interest with that nonce is forwarded", 1, func(k string) bool {
 		return k == "R8.3:dnl-one-expiry-item-per-record"
 	})
